@@ -385,6 +385,7 @@ func c01r3(c *core.Ctx) {
 		c.Undecided("SetCryptographer", token.NoPos, "no call site of Session.SetCryptographer found")
 	}
 
+	sessionAccessors(c, "promotion")
 	// (2) who writes the cryptographer fields
 	sessT := mod + "/hap.session"
 	for _, fld := range []string{"cryptographer", "nextCryptographer"} {
